@@ -222,7 +222,7 @@ pub fn check(rep: &Reporter) {
 	let max_len = 3;
 	let max_script = if thorough { 4 } else { 3 };
 	rep.set_rule(&format!(
-		"params texts = arrays of 0..{max_len} elements out of {} element texts (numbers incl. out-of-range, strings containing brackets/commas/escapes, nested and blank containers) with whitespace from {{none, space, tab-newline, CR-LF}} at every token gap (all combinations for ≤1 element; for 2 elements at most 3 (thorough 4) non-empty gaps; for 3 elements at most {} non-empty gaps), plus objects/scalars/absent; read scripts = all sequences of length 1..{max_script} over {{next<Value>, next<u64>, next<String>, optional_next<Value>, optional_next<u64>}}; every (text, script) pair is judged against serde_json's parse of the element texts; distinct = (text, script), all non-trivial.",
+		"params texts = arrays of 0..{max_len} elements out of {} element texts (numbers incl. out-of-range, strings containing brackets/commas/escapes, nested and blank containers) with whitespace from {{none, space, tab-newline, CR-LF}} at every token gap (all combinations for ≤1 element; for 2 elements at most 2 (thorough 4) non-empty gaps; for 3 elements at most {} non-empty gaps), plus objects/scalars/absent; read scripts = all sequences of length 1..{max_script} over {{next<Value>, next<u64>, next<String>, optional_next<Value>, optional_next<u64>}}; every (text, script) pair is judged against serde_json's parse of the element texts; distinct = (text, script), all non-trivial.",
 		ELEMS.len(),
 		if thorough { 3 } else { 1 }
 	));
@@ -252,7 +252,7 @@ pub fn check(rep: &Reporter) {
 				if n == 3 && nonempty > if thorough { 3 } else { 1 } {
 					continue;
 				}
-				if n == 2 && nonempty > if thorough { 4 } else { 3 } {
+				if n == 2 && nonempty > if thorough { 4 } else { 2 } {
 					continue;
 				}
 				let text = build_text(&e, &gaps);
